@@ -79,6 +79,8 @@ def lty(t):
         return 'PyDict'
     if isinstance(t, tuple) and t[0] == 'Obj':
         return t[1]
+    if isinstance(t, tuple) and t[0] == 'Raw':
+        return t[1]
     if isinstance(t, tuple) and t[0] == 'Opt':
         return '(Option %s)' % lty(t[1])
     return t
@@ -109,6 +111,21 @@ class FnTranslator:
         self.aux = []           # auxiliary definitions (loops)
         self.nloops = 0
         self.out_rec = None
+
+    @property
+    def pm(self):
+        return getattr(self.unit, 'pm', False)
+
+    def monad(self):
+        return f'PM {self.unit.self_type}' if self.pm else 'Except Err'
+
+    def ext_sig(self):
+        if self.pm:
+            return self.unit.ext_sig
+        return '{M : Type} [Inhabited M] (ext : ReaderExt M)'
+
+    def extra_args(self, callee=None):
+        return ''.join(f'{n} ' for n, _ in getattr(callee or self.unit, 'extra', []))
 
     # ---------- expressions -------------------------------------------------
     def const_of_global(self, name):
@@ -170,8 +187,12 @@ class FnTranslator:
                         raise Untranslatable(f'attribute {e.attr} of {e.value.id}')
                     return f'{e.value.id}_{e.attr}', t.fields[e.attr]
                 if t == 'Self':
+                    if e.attr in getattr(self.unit, 'attr_consts', {}):
+                        return ('true' if self.unit.attr_consts[e.attr] else 'false'), BOOL
                     if e.attr not in self.unit.fields:
                         raise Untranslatable(f'field {e.attr}')
+                    if self.pm:
+                        return f'(← get).{e.attr}', self.unit.fields[e.attr]
                     return f'self.{e.attr}', self.unit.fields[e.attr]
                 if t == MSG and e.attr == 'time':
                     return f'{base}.time', INT
@@ -277,7 +298,10 @@ class FnTranslator:
         if isinstance(e, ast.UnaryOp):
             a, ta = self.expr(e.operand)
             if isinstance(e.op, ast.Not):
-                return f'(!{self.truth(a, ta)})', BOOL
+                tv = self.truth(a, ta)
+                if tv in ('true', 'false') and self.pm:
+                    return ('false' if tv == 'true' else 'true'), BOOL
+                return f'(!{tv})', BOOL
             if isinstance(e.op, ast.USub) and ta == INT:
                 return f'(-{a})', INT
             if isinstance(e.op, ast.Invert) and ta == INT:
@@ -299,6 +323,13 @@ class FnTranslator:
             raise Untranslatable('guarded subscript form')
         if isinstance(e, ast.BoolOp):
             parts = [self.cond(v) for v in e.values]
+            if isinstance(e.op, ast.And) and self.pm:
+                # operands known from the declared configuration (hasattr of a declared attribute)
+                if 'false' in parts:
+                    return 'false', BOOL
+                parts = [p for p in parts if p != 'true'] or ['true']
+                if len(parts) == 1:
+                    return parts[0], BOOL
             if any('←' in p for p in parts[1:]):
                 # a later operand has an effect (an index that may raise): it is only evaluated when the earlier ones
                 # have not decided the result
@@ -345,6 +376,8 @@ class FnTranslator:
                     # the declared type of the parameter says whether it is None
                     if pt == OPT_INT:
                         out.append(f'({prev} == none)' if opn == 'Is' else f'({prev} != none)')
+                    elif isinstance(pt, tuple) and pt[0] == 'Opt':
+                        out.append(f'(Option.isNone {prev})' if opn == 'Is' else f'(Option.isSome {prev})')
                     elif pt in (FILE, INFILE, INT, LINT, MSG) or isinstance(pt, tuple):
                         out.append('false' if opn == 'Is' else 'true')
                     elif pt == NONE:
@@ -461,6 +494,10 @@ class FnTranslator:
                 and not e.keywords:
             t = self.env[f.id][1]
             return self.fn_call(('FnDict', t[1], t[2], t[3]), t[5], [self.expr(a) for a in e.args])
+        if self.pm:
+            r = self.pm_call(e)
+            if r is not None:
+                return r
         if isinstance(f, ast.Name):
             n = f.id
             if n == 'len' and len(e.args) == 1:
@@ -590,6 +627,54 @@ class FnTranslator:
             raise Untranslatable('method call ' + f.attr)
         raise Untranslatable('call form')
 
+    def pm_method(self, name):
+        for u in self.tr.units:
+            if getattr(u, 'pm', False) and u.self_type == self.unit.self_type and u.name == name and u.file == self.unit.file:
+                return u
+        return None
+
+    def pm_args(self, u, e):
+        """arguments of a call of the translated method u, positional or by keyword, in the order of its parameters"""
+        names = [p for p, _ in u.params]
+        vals = {}
+        for nme, a in zip(names, e.args):
+            vals[nme] = self.expr(a)[0]
+        for k in e.keywords:
+            if k.arg not in names:
+                raise Untranslatable('keyword ' + str(k.arg))
+            vals[k.arg] = self.expr(k.value)[0]
+        if set(vals) != set(names):
+            raise Untranslatable('arguments of ' + u.name)
+        return ' '.join(vals[nme] for nme in names)
+
+    def pm_call(self, e):
+        f = e.func
+        u0 = self.unit
+        if isinstance(f, ast.Name) and f.id == 'hasattr' and len(e.args) == 2 and isinstance(e.args[0], ast.Name) \
+                and e.args[0].id == 'self' and isinstance(e.args[1], ast.Constant) and e.args[1].value in getattr(u0, 'hasattr', {}):
+            return ('true' if u0.hasattr[e.args[1].value] else 'false'), BOOL
+        if isinstance(f, ast.Name) and f.id in getattr(u0, 'ext_values', {}) and not e.args and not e.keywords:
+            nm, t = u0.ext_values[f.id]
+            return f'ext.{nm}', t
+        if isinstance(f, ast.Name) and f.id == 'isinstance' and len(e.args) == 2 and isinstance(e.args[1], ast.Name) \
+                and e.args[1].id == 'Message':
+            a, t = self.expr(e.args[0])
+            if t == EXTMSG:
+                return 'true', BOOL
+        if isinstance(f, ast.Attribute) and f.attr == 'copy' and not e.args and not e.keywords:
+            a, t = self.expr(f.value)
+            if t == EXTMSG:
+                return f'(ext.copy {a})', EXTMSG
+        if isinstance(f, ast.Attribute) and isinstance(f.value, ast.Name) and f.value.id == 'self':
+            if f.attr in getattr(u0, 'ext_methods', {}):
+                nm, t = u0.ext_methods[f.attr]
+                args = [self.expr(a)[0] for a in e.args] + [self.expr(k.value)[0] for k in e.keywords]
+                return f'(← ext.{nm} {" ".join(args)})', t
+            u = self.pm_method(f.attr)
+            if u is not None:
+                return f'(← {u.lean_name} ext {self.extra_args(u)}{self.pm_args(u, e)})', (u.ret if u.ret is not None else NONE)
+        return None
+
     def flat_args(self, u, args, nodes):
         out = []
         for (pname, pt), (a, t), node in zip(u.params, args, nodes):
@@ -675,6 +760,8 @@ class FnTranslator:
             return f'({a} != 0)'
         if isinstance(t, tuple) and t[0] == 'List':
             return f'(!List.isEmpty {a})'
+        if isinstance(t, tuple) and t[0] == 'Opt' and t[1] == EXTMSG:
+            return f'(Option.isSome {a})'       # a message object is true (its __len__ is at least 1)
         raise Untranslatable('truth value of ' + str(t))
 
     def cond(self, e):
@@ -735,6 +822,12 @@ class FnTranslator:
             if t == 'Self':
                 if tgt.attr not in self.unit.fields:
                     raise Untranslatable('assignment to unknown field ' + tgt.attr)
+                if self.pm:
+                    if '(← get)' in val:
+                        out.append(f'{ind}let v__ := {val}')
+                        val = 'v__'
+                    out.append(f'{ind}modify fun self => {{ self with {tgt.attr} := {val} }}')
+                    return
                 out.append(f'{ind}self := {{ self with {tgt.attr} := {val} }}')
                 return
             if isinstance(t, Rec) and t.out and tgt.attr in t.fields:
@@ -758,6 +851,22 @@ class FnTranslator:
 
     def ret_value(self, e):
         """what `return e` hands back; methods return the object state (and a value)"""
+        if self.pm:
+            if getattr(self, 'is_gen', False):
+                return 'out__'
+            isnone = e is None or (isinstance(e, ast.Constant) and e.value is None)
+            if isinstance(self.unit.ret, tuple) and self.unit.ret[0] == 'Opt':
+                if isnone:
+                    return 'none'
+                v, t = self.expr(e)
+                if t == self.unit.ret:
+                    return v
+                if t == self.unit.ret[1]:
+                    return f'(some {v})'
+                raise Untranslatable(f'return of {t} where {self.unit.ret} is declared')
+            if isnone:
+                return '()'
+            return self.expr(e)[0]
         if self.unit.cls is not None:
             if (e is None or (isinstance(e, ast.Constant) and e.value is None)) and not (isinstance(self.unit.ret, tuple) and self.unit.ret[0] == 'Opt'):
                 return 'self'
@@ -800,6 +909,17 @@ class FnTranslator:
             return pre + self.call_stmt(val, ind)
         if isinstance(s, ast.Pass):
             return [f'{ind}pure ()']
+        if isinstance(s, ast.Return) and s.value is not None and isinstance(s.value, ast.Call) \
+                and isinstance(s.value.func, ast.Attribute) and s.value.func.attr == 'popleft' and not s.value.args:
+            # return q.popleft()
+            self.npop = getattr(self, 'npop', 0) + 1
+            pn = f'popped__{self.npop}'
+            pre = self.stmt(ast.Assign(targets=[ast.Name(id=pn, ctx=ast.Store())], value=s.value), ind)
+            return pre + self.stmt(ast.Return(value=ast.Name(id=pn, ctx=ast.Load())), ind)
+        if isinstance(s, ast.Return) and self.pm:
+            if getattr(self, 'is_gen', False):
+                return [f'{ind}return out__']
+            return [f'{ind}return {self.ret_value(s.value)}']
         if isinstance(s, ast.Return):
             if self.unit.cls is not None and s.value is not None and isinstance(s.value, ast.Call):
                 pre = self.call_stmt(s.value, ind, allow_value=True)
@@ -846,6 +966,12 @@ class FnTranslator:
                     raise Untranslatable('popleft on ' + str(qt))
                 self.ntmp = getattr(self, 'ntmp', 0) + 1
                 tmp = f'h__{self.ntmp}'
+                if self.pm:
+                    out.append(f'{ind}let q__{self.ntmp} := {q}')
+                    out.append(f'{ind}let {tmp} ← (match q__{self.ntmp} with | [] => throw Err.IndexError | h :: _ => pure h)')
+                    self.assign_target(s.value.func.value, f'(List.tail q__{self.ntmp})', qt, ind, out)
+                    self.assign_target(s.targets[0], tmp, qt[1], ind, out)
+                    return out
                 out.append(f'{ind}let {tmp} ← idx {q} (0 : Int)')
                 self.assign_target(s.value.func.value, f'(List.tail {q})', qt, ind, out)
                 self.assign_target(s.targets[0], tmp, qt[1], ind, out)
@@ -889,6 +1015,10 @@ class FnTranslator:
                 out.append(f'{ind}else')
                 out.extend(self.block(s.orelse, ind + '  '))
             return out
+        if isinstance(s, ast.With) and self.pm and len(s.items) == 1 and isinstance(s.items[0].context_expr, ast.Attribute) \
+                and s.items[0].context_expr.attr == '_lock' and s.items[0].optional_vars is None:
+            # the translation is the single-thread reading of the method: holding the (re-entrant) lock is no step
+            return self.block(s.body, ind)
         if isinstance(s, ast.With):
             if len(s.items) == 1 and isinstance(s.items[0].context_expr, ast.Call) and \
                     isinstance(s.items[0].context_expr.func, ast.Name) and s.items[0].context_expr.func.id == 'meta_charset' \
@@ -907,7 +1037,7 @@ class FnTranslator:
             h = s.handlers[0]
             hn = h.type.id if isinstance(h.type, ast.Name) else None
             classes = {'KeyError': ['KeyError'], 'LookupError': ['KeyError', 'IndexError', 'LookupError'],
-                       'IndexError': ['IndexError']}.get(hn)
+                       'IndexError': ['IndexError'], 'OSError': ['OSError', 'EOFError']}.get(hn)
             if classes is None:
                 raise Untranslatable('except ' + str(hn))
             if len(s.body) == 1 and isinstance(s.body[0], ast.Assign) and isinstance(s.body[0].targets[0], ast.Name) \
@@ -947,6 +1077,27 @@ class FnTranslator:
 
     def call_stmt(self, e, ind, allow_value=False):
         """an expression statement: a mutating method call"""
+        if self.pm and isinstance(e, ast.Call):
+            f = e.func
+            if isinstance(f, ast.Name) and f.id in getattr(self.unit, 'ghost_calls', {}):
+                g = self.unit.ghost_calls[f.id]
+                return [f'{ind}modify fun self => {{ self with {g} := self.{g} + 1 }}']
+            if isinstance(f, ast.Attribute) and isinstance(f.value, ast.Name) and f.value.id == 'self':
+                if f.attr in getattr(self.unit, 'skip_methods', ()):
+                    return []
+                r = self.pm_call(e)
+                if r is not None:
+                    v, t = r
+                    if v.startswith('(← ') and v.endswith(')'):
+                        return [f'{ind}let _ ← {v[3:-1]}' if t not in (None, NONE) else f'{ind}{v[3:-1]}']
+        if self.pm and isinstance(e, ast.Yield):
+            v, t = self.expr(e.value)
+            if t == ('Opt', EXTMSG):
+                # on this path the code has excluded None (`if msg is None: return  else: yield msg`)
+                return [f'{ind}out__ := out__ ++ (Option.toList {v})']
+            if t != EXTMSG:
+                raise Untranslatable('yield of ' + str(t))
+            return [f'{ind}out__ := out__ ++ [{v}]']
         if isinstance(e, ast.Yield):
             if e.value is None:
                 raise Untranslatable('bare yield')
@@ -1155,15 +1306,27 @@ class FnTranslator:
                 raise Untranslatable('continue in while')
         has_break = any(isinstance(sub, ast.Break) for sub in ast.walk(ast.Module(body=s.body, type_ignores=[])))
         names = [n for n in self.assigned_names(s.body) if n in self.muts]
-        has_self = self.unit.cls is not None
+        if getattr(self, 'is_gen', False) and 'out__' not in names and \
+                any(isinstance(x, ast.Yield) for b in s.body for x in ast.walk(b)):
+            names.append('out__')
+        has_self = self.unit.cls is not None and not self.pm
         state = (['self'] if has_self else []) + names
+        if not state and self.pm:
+            if 'u__' not in self.muts:
+                self.muts.append('u__')
+                self.env['u__'] = ('u__', NONE)
+                self.pre_loop = ['let mut u__ : Unit := ()']
+            names = ['u__']
+            state = ['u__']
         if not state:
             raise Untranslatable('while loop without state')
         returns = any(isinstance(sub, ast.Return) for sub in ast.walk(ast.Module(body=s.body, type_ignores=[])))
         stypes = ([self.unit.self_type] if has_self else []) + [lty(self.env[n][1]) for n in names]
         # free variables of the loop that are not state: pass every other known local/param as an argument
         frees = [(n, self.env[n]) for n in self.env if n not in names and n != 'self'
-                 and not isinstance(self.env[n][1], Rec) and not n.startswith('r__') and n not in getattr(self.unit, 'consts', {})]
+                 and not isinstance(self.env[n][1], Rec) and not n.startswith('r__') and n not in getattr(self.unit, 'consts', {})
+                 and not (isinstance(self.env[n][1], tuple) and self.env[n][1][0] in ('FnVal',)) and n != 'u__' and n != 'out__'
+                 and not n.startswith('popped__')]
         for n in list(self.env):
             if isinstance(self.env[n][1], Rec):
                 for k, t in self.env[n][1].fields.items():
@@ -1171,7 +1334,7 @@ class FnTranslator:
         fparams = ' '.join(f'({n} : {lty(t)})' for n, (_, t) in frees)
         fargs = ' '.join(n for n, _ in frees)
         if getattr(self.unit, 'ext', False):
-            fparams = '{M : Type} [Inhabited M] (ext : ReaderExt M) ' + fparams
+            fparams = self.ext_sig() + ' ' + fparams
             fargs = 'ext ' + fargs
         sparams = ' '.join(f'({n} : {t})' for n, t in zip(state, stypes))
         tup = state[0] if len(state) == 1 else '(' + ', '.join(state) + ')'
@@ -1182,6 +1345,8 @@ class FnTranslator:
             rty = '(' + ' × '.join([rty] + [lty(t) for _, t in self.unit.params if is_file(t)]) + ')'
         if has_self:
             rty = self.unit.self_type if self.unit.ret in (None, NONE) else f'({lty(self.unit.ret)} × {self.unit.self_type})'
+        if self.pm and getattr(self, 'is_gen', False):
+            rty = '(List M)'
         if returns:
             resty = f'(Sum {rty} {tupty})'      # inl: the function returned; inr: the loop ended
         else:
@@ -1194,7 +1359,7 @@ class FnTranslator:
         self.muts = saved_muts
         if getattr(self.unit, 'split_body', False) and not returns:
             # the loop body as a function of its own: Sum.inl = the loop is left (break), Sum.inr = next round
-            blines = [f'def {aux_name}.body {fparams} {sparams} : Except Err (Sum {tupty} {tupty}) := do']
+            blines = [f'def {aux_name}.body {fparams} {sparams} : {self.monad()} (Sum {tupty} {tupty}) := do']
             for n in state:
                 blines.append(f'    let mut {n} := {n}')
             for b in body:
@@ -1203,7 +1368,7 @@ class FnTranslator:
             blines.append(f'    return Sum.inr {tup}')
             self.aux.append('\n'.join(blines))
             pat = ', '.join(state)
-            lines = [f'def {aux_name} {fparams} : Nat → {" → ".join(stypes)} → Except Err {tupty}']
+            lines = [f'def {aux_name} {fparams} : Nat → {" → ".join(stypes)} → {self.monad()} {tupty}']
             lines.append(f'  | 0, {pat} => if {c} then throw Err.Hang else pure {tup}')
             lines.append(f'  | fuel + 1, {pat} =>')
             lines.append(f'    if {c} then')
@@ -1222,11 +1387,12 @@ class FnTranslator:
             for n, pr in zip(state, projs):
                 out.append(f'{ind}{n} := {pr}')
             return out
-        lines = [f'def {aux_name} {fparams} : Nat → {" → ".join(stypes)} → Except Err {resty}']
+        fv = 'fuel__' if self.pm else 'fuel'
+        lines = [f'def {aux_name} {fparams} : Nat → {" → ".join(stypes)} → {self.monad()} {resty}']
         pat = ', '.join(state)
         done = f'pure (Sum.inr {tup})' if returns else f'pure {tup}'
         lines.append(f'  | 0, {pat} => {"do " if "←" in c else ""}if {c} then throw Err.Hang else {done}')
-        lines.append(f'  | fuel + 1, {pat} => do')
+        lines.append(f'  | {fv} + 1, {pat} => do')
         for n in state:
             lines.append(f'    let mut {n} := {n}')
         lines.append(f'    if {c} then')
@@ -1234,7 +1400,7 @@ class FnTranslator:
             body = [(b.replace('return ', 'return Sum.inl (') + ')') if ('return ' in b and 'return (Sum.inr' not in b) else b for b in body]
         lines.extend(body)
         if not self.terminates(s.body):
-            lines.append(f'      {aux_name} {fargs} fuel {" ".join(state)}')
+            lines.append(f'      {aux_name} {fargs} {fv} {" ".join(state)}')
         lines.append(f'    else {done}')
         self.aux.append('\n'.join(lines))
         out = []
@@ -1329,7 +1495,11 @@ class FnTranslator:
                 raise Untranslatable('method without self')
             pnames = pnames[1:]
             self.env['self'] = ('self', 'Self')
-            params.append(f'(self : {u.self_type})')
+            if not self.pm:
+                params.append(f'(self : {u.self_type})')
+            for en, et in getattr(u, 'extra', []):
+                params.append(f'({en} : {et})')
+                self.env[en] = (en, ('Raw', et))
         decl = dict(u.params)
         ndefaults = len(fn.args.defaults)
         required = pnames[:len(pnames) - ndefaults] if ndefaults else pnames
@@ -1359,9 +1529,9 @@ class FnTranslator:
             for m, t in od.get('methods', {}).items():
                 params.append(f'({oname}_{m} : Except Err {lty(t)})')
         if getattr(u, 'ext', False):
-            params.insert(0, '{M : Type} [Inhabited M] (ext : ReaderExt M)')
+            params.insert(0, self.ext_sig())
         body = []
-        if u.cls is not None:
+        if u.cls is not None and not self.pm:
             body.append('  let mut self := self')
             self.muts.append('self')
         assigned = self.assigned_names(fn.body)
@@ -1375,17 +1545,25 @@ class FnTranslator:
                 body.append(f'  let mut {name}_{k} := {name}_{k}')
         stmts = fn.body
         self.is_gen = any(isinstance(x, ast.Yield) for x in ast.walk(fn))
-        if self.is_gen:
+        if self.is_gen and self.pm:
+            body.append('  let mut out__ : List M := []')
+            self.muts.append('out__')
+            self.env['out__'] = ('out__', LIST(EXTMSG))
+        elif self.is_gen:
             if any(isinstance(x, ast.Return) for x in ast.walk(fn)):
                 raise Untranslatable('return inside a generator')
             body.append('  let mut out__ : List TMsg := []')
             self.muts.append('out__')
             self.env['out__'] = ('out__', LIST(MSG))
-        body.extend(self.hoist_decls(self.block(stmts, '  '), '  '))
+        blk = self.hoist_decls(self.block(stmts, '  '), '  ')
+        body.extend(['  ' + x for x in getattr(self, 'pre_loop', [])])
+        body.extend(blk)
         if not self.terminates(stmts):
             # falling off the end returns None (the object state for methods)
             body.append(f'  return {self.ret_value(None)}')
-        if u.cls is not None:
+        if self.pm:
+            rty = '(List M)' if self.is_gen else (lty(u.ret) if u.ret not in (None, NONE) else 'Unit')
+        elif u.cls is not None:
             rty = u.self_type if u.ret in (None, NONE) else f'({lty(u.ret)} × {u.self_type})'
         elif self.out_rec is not None:
             ts = [lty(t) for t in self.out_rec[1].fields.values()] + [lty(t) for _, t in u.params if is_file(t)]
@@ -1394,7 +1572,7 @@ class FnTranslator:
             rty = lty(u.ret) if u.ret not in (None,) else 'Unit'
             if any(is_file(t) for _, t in u.params):
                 rty = '(' + ' × '.join([rty] + [lty(t) for _, t in u.params if is_file(t)]) + ')'
-        head = f'def {u.lean_name} {" ".join(params)} : Except Err {rty} := do'
+        head = f'def {u.lean_name} {" ".join(params)} : {self.monad()} {rty} := do'
         src = src_text
         return '\n\n'.join(self.aux + [f'/- {u.file}: {("class " + u.cls + ", ") if u.cls else ""}{u.name}\n{src}\n-/\n' + head + '\n' + '\n'.join(body)])
 
@@ -1544,8 +1722,8 @@ class Translator:
 
     GROUPS = {'mido/messages/encode.py': 'Codec', 'mido/messages/decode.py': 'Codec', 'mido/messages/checks.py': 'Codec',
               'mido/tokenizer.py': 'Tok', 'mido/midifiles/meta.py': 'MetaNum', 'mido/midifiles/tracks.py': 'Tracks',
-              'mido/midifiles/midifiles.py': 'FileIO', 'mido/parser.py': 'Parser'}
-    DEPS = {'Codec': [], 'Msg': ['Codec'], 'Tok': [], 'Parser': ['Tok'], 'MetaNum': [], 'Tracks': [], 'FileIO': ['MetaNum', 'Tracks']}
+              'mido/midifiles/midifiles.py': 'FileIO', 'mido/parser.py': 'Parser', 'mido/ports.py': 'Ports'}
+    DEPS = {'Codec': [], 'Msg': ['Codec'], 'Tok': [], 'Parser': ['Tok'], 'Ports': [], 'MetaNum': [], 'Tracks': [], 'FileIO': ['MetaNum', 'Tracks']}
 
     def run_groups(self):
         """one generated file per group of source files, so that a function that cannot be translated (or an edit that
@@ -1558,7 +1736,9 @@ class Translator:
             defs = per[g]
             if u.cls is not None and u.self_type not in structs:
                 fl = '\n'.join(f'  {k} : {lty(t)} := {dflt}' for k, (t, dflt) in u.field_defaults.items())
-                if getattr(u, 'ext', False):
+                if getattr(u, 'pm', False):
+                    structs[u.self_type] = u.struct_text
+                elif getattr(u, 'ext', False):
                     structs[u.self_type] = f'structure {u.cls} (M : Type) where\n{fl}'
                 else:
                     structs[u.self_type] = f'structure {u.self_type} where\n{fl}\n  deriving DecidableEq, Repr, Inhabited'
@@ -1667,6 +1847,33 @@ def units():
                              ('pending', [], INT, None)):
         u = Unit(P, n, ps, ret, cls='Parser', fields={k: t for k, (t, _) in pf.items()}, self_type='(Parser M)', fuel=fuel)
         u.field_defaults, u.ext = pf, True
+        U.append(u)
+    PO = 'mido/ports.py'
+    port_struct = ('/-- a port object as far as ports.py reads and writes it: the `closed` flag, the queue `_messages`, `autoreset`, the\n'
+                   '    state of the device behind `_receive`/`_send`/`_close` (type `D`), and a count of the calls of `sleep()` -/\n'
+                   'structure BasePort (M D : Type) where\n  closed : Bool\n  _messages : List M\n  autoreset : Bool\n  dev : D\n  sleeps : Int\n\n'
+                   '/-- what the code outside ports.py does when ports.py calls it: the device methods of the port subclass\n'
+                   '    (they may do anything to the port object), `msg.copy()`, and the messages `reset_messages()` yields -/\n'
+                   'structure PortExt (M D : Type) where\n  recv : Bool → PM (BasePort M D) (Option M)\n  send : M → PM (BasePort M D) Unit\n'
+                   '  closeDev : PM (BasePort M D) Unit\n  copy : M → M\n  resetMsgs : List M')
+    pfields = {'closed': BOOL, '_messages': LIST(EXTMSG), 'autoreset': BOOL, 'sleeps': INT}
+    for cls, n, ps, ret, fuel, extra in (
+            ('BaseOutput', 'send', [('msg', EXTMSG)], NONE, None, []),
+            ('BaseOutput', 'reset', [], NONE, None, []),
+            ('BasePort', 'close', [], NONE, None, []),
+            ('BaseInput', 'receive', [('block', BOOL)], ('Opt', EXTMSG), {'loop1': 'fuel'}, [('fuel', 'Nat')]),
+            ('BaseInput', 'poll', [], ('Opt', EXTMSG), None, [('fuel', 'Nat')]),
+            ('BaseInput', 'iter_pending', [], LIST(EXTMSG), {'loop1': 'fuel2'}, [('fuel', 'Nat'), ('fuel2', 'Nat')])):
+        u = Unit(PO, n, ps, ret, cls=cls, fields=pfields, self_type='(BasePort M D)', fuel=fuel, lean_name=f'{cls}.{n}')
+        u.pm, u.ext, u.extra = True, True, extra
+        u.ext_sig = '{M D : Type} (ext : PortExt M D)'
+        u.struct_text, u.field_defaults = port_struct, {}
+        u.ext_methods = {'_receive': ('recv', ('Opt', EXTMSG)), '_send': ('send', NONE), '_close': ('closeDev', NONE)}
+        u.ext_values = {'reset_messages': ('resetMsgs', LIST(EXTMSG))}
+        u.ghost_calls = {'sleep': 'sleeps'}
+        u.skip_methods = ('_check_callback',)
+        u.hasattr = {'autoreset': True}
+        u.attr_consts = {'is_input': True, 'is_output': True}
         U.append(u)
     M = 'mido/midifiles/meta.py'
     U.append(Unit(M, 'encode_variable_int', [('value', INT)], LINT, fuel={'loop1': 'value.toNat'}))
